@@ -28,10 +28,15 @@ FINDINGS = {
                             "resolves to different settings from one lookup to the next (e.g. exact persistent + realm-wildcard in-memory)",
     "C21-reregistration-ignored": "RegisterPattern's `not changed` early return ignores the swamp type: `reg a/x/p M 4` then `reg a/x/p P 4 0 0` "
                                   "leaves the pattern in-memory; lookups keep returning the older registration",
+    "C21-acknowledged-registration-lost": "RegisterPattern's `not changed` early return looks at the runtime map only: after a registration whose save "
+                                          "failed, registering the same pattern again is acknowledged but writes nothing — after a restart it is gone",
     "C21-settings-save-not-atomic": "settings.json is rewritten in place: when a save fails part-way (crash, full disk) the file no longer parses and "
                                     "settings.New silently starts with NO patterns — every previously registered pattern is lost after the restart",
     "C21-restart-loses-field": "a pattern field is not carried through settings.json: after a restart the same name resolves to different settings",
 }
+
+
+_ATOMIC = True
 
 
 def _matches(n, p):
@@ -68,6 +73,8 @@ def oracle(rep):
                 maybe_all.add(torn)
                 last, torn = {}, None
         elif f[0] == "reg":
+            if torn == tuple(f[1:4]):
+                torn = None      # acknowledged again: it must survive a restart now
             keys.add(tuple(f[1:4]))
             # what the registration asks for (in-memory patterns carry no interval / size)
             regd[tuple(f[1:4])] = "M|%s|0|0" % f[5] if f[4] == "M" else "P|%s|%s|%s" % (f[5], f[6], f[7])
@@ -89,18 +96,18 @@ def oracle(rep):
                 pat = tuple(r.split("|")[0].split("/"))
                 if not matching:
                     if pat != name or r.split("|", 1)[1] != "P|5|1|65536":
-                        return ("C21-settings-save-not-atomic" if maybe_all else None, "no registered pattern matches %s but the result is %s" % ("/".join(name), r))
+                        return (("C21-acknowledged-registration-lost" if _ATOMIC else "C21-settings-save-not-atomic") if maybe_all else None, "no registered pattern matches %s but the result is %s" % ("/".join(name), r))
                 elif pat not in matching or any(_more_specific(k, pat) for k in matching):
-                    fidx = "C21-settings-save-not-atomic" if maybe_all else "C21-map-order-lookup"
+                    fidx = ("C21-acknowledged-registration-lost" if _ATOMIC else "C21-settings-save-not-atomic") if maybe_all else "C21-map-order-lookup"
                     return (fidx, "%s resolved to %s although a more specific registered pattern matches (registered: %s)"
                                 % ("/".join(name), r, " ".join(sorted("/".join(k) for k in matching))))
             for r in res:
                 pat = tuple(r.split("|")[0].split("/"))
                 if pat in regd and r.split("|", 1)[1] != regd[pat]:
-                    return ("C21-settings-save-not-atomic" if maybe_all else "C21-reregistration-ignored", "%s resolved to %s but pattern %s was last registered as %s"
+                    return (("C21-acknowledged-registration-lost" if _ATOMIC else "C21-settings-save-not-atomic") if maybe_all else "C21-reregistration-ignored", "%s resolved to %s but pattern %s was last registered as %s"
                             % ("/".join(name), r, "/".join(pat), regd[pat]))
             if name in last and last[name] != res:
-                return ("C21-restart-loses-field", "%s resolved to %s before and %s after a restart" % ("/".join(name), last[name], res))
+                return ("C21-acknowledged-registration-lost" if not maybe_all else "C21-restart-loses-field", "%s resolved to %s before and %s after a restart" % ("/".join(name), last[name], res))
             last[name] = res
     return None
 
@@ -111,7 +118,9 @@ def spec_violated(rep):
 
 
 def run(ctx):
+    global _ATOMIC
     facts, _, _ = U.extract_facts(ctx)
+    _ATOMIC = facts.get("saveAtomic") == "yes"
     K.lean_verdict(ctx)
     corrs = U.run_corr(ctx, "C21", facts)
     K.decide_standard(ctx, corrs, FINDINGS)
